@@ -31,6 +31,18 @@ pub fn gen(seed: u64, n: usize, out: &mut String) {
     let mut r = Rng::new(seed ^ 0xE1C);
     for i in 0..n {
         let mut c = sig::gen_valid_cfg(&mut r);
+        if i % 64 == 21 {
+            // a LARGE block (the sizes beyond 1152 up to the maximum 32767: finest Rice partition orders 6..9, long warm-up-free
+            // partitions, 2-byte block-size field), one full block or a full block and a tail, 1-2 channels
+            let mut r2 = Rng::new(seed ^ 0xB16B ^ ((i / 64) as u64) << 24);
+            let bs = *r2.pick(&[2304usize, 4096, 4608, 8192, 16384, 32767, 4097, 12288]);
+            let ch = 1 + r2.below(2) as usize; let bps = *r2.pick(&[8usize, 16, 24]);
+            let n = if r2.chance(1, 2) { bs } else { bs + 1 + r2.below(200) as usize };
+            let s = sig::gen_signal(&mut r2, ch, bps, n);
+            c.bs = bs;
+            writeln!(out, "ENC e{} {} {} {} {} {} {}", i, c.encode(), *r2.pick(&[44100usize, 96000, 12345]), ch, bps, bs, sig::fmt_samples(&s)).unwrap();
+            continue;
+        }
         let (rate, ch, bps, bs, s) = gen_input(&mut r, i % 4 != 0);
         c.bs = bs;
         writeln!(out, "ENC e{} {} {} {} {} {} {}", i, c.encode(), rate, ch, bps, bs, sig::fmt_samples(&s)).unwrap();
